@@ -366,6 +366,12 @@ class RemoteWorker(Worker, metaclass=RemoteWorkerMeta):
 
     # Parent-side, calling thread
     def _start(self):
+        # The backend re-runs the main script under the name '__new_main__' (see _run_backend), so objects whose
+        # classes are defined there come back pickled by reference to that name - make it resolvable here,
+        # like multiprocessing does with '__mp_main__'
+        if '__main__' in sys.modules:
+            sys.modules.setdefault('__new_main__', sys.modules['__main__'])
+
         logger.details('Connecting to {}', self._target_host)
         self._socket = socket.socket(socket.AF_INET, socket.SOCK_STREAM)
         set_linger(self._socket, True, 0)
